@@ -23,3 +23,21 @@ void *memchr(const void *s, int c, size_t n)
     for (size_t i = 0; i < n; i++) if (p[i] == (unsigned char)c) return (void *)(p + i);
     return NULL;
 }
+char *strstr(const char *h, const char *n)
+{
+    for (size_t i = 0; ; i++) {
+        size_t j = 0;
+        while (n[j] && h[i + j] == n[j]) j++;
+        if (!n[j]) return (char *)(h + i);
+        if (!h[i]) return NULL;
+    }
+}
+int snprintf(char *s, size_t n, const char *f, ...)
+{
+    /* libc snprintf (used for %Lf / %a renderings only): assumed contract - writes a terminated
+       string of fewer than n characters into s */
+    (void)f;
+    __CPROVER_precondition(n == 0 || __CPROVER_w_ok(s, n), "memset destination region writeable: snprintf scratch buffer");
+    if (n > 0) { s[0] = 0; }
+    int r; __CPROVER_assume(r >= 0 && r < 64); return r;
+}
